@@ -251,9 +251,9 @@ def check_arith(rep, work, vh, cases, tag="a", timeout=900):
                             json.dumps(case_of(rec, run)), run["res"].get("go"), rv["mrep"]))
                 elif rv["mrep"] in ("int", "big"):
                     bump("path_" + rv["mrep"])
-                if rec["id"] % 997 == 0:
+                if rec["id"] % 997 == 0 and run is rec["runs"][0]:
                     rep.sample({"query": rec["src"], "a": zshow(rec["a"]), "b": zshow(rec.get("b")),
-                                "reps": [run["la"], run.get("lb")], "real": res_show(run["res"]), "verdict": "agree"})
+                                "reps": [run["la"], run.get("lb")], "real": res_show(run["res"]), "verdict": "agree"}, limit=6)
             elif rv["v"] == "specerr":
                 rep.count("out_of_model")
                 vc.log("SPEC-DRIFT: IntFast.tla and the exact result differ on %s" % json.dumps(case_of(rec, run)))
@@ -279,31 +279,234 @@ def check_arith(rep, work, vh, cases, tag="a", timeout=900):
 
 
 # ---------------------------------------------------------------------------
+# number literals through the real binary
+
+# mode -> (query, extra args, how the literal is wrapped in the input); the expected text of every mode is
+# in spec/ValidateNum.tla (ModeTable): nothing about expectations lives here.
+LIT_MODES = {
+    "id": (".", [], "plain"), "arr": ("[.]", [], "plain"), "obj": ("{a:.}", [], "plain"),
+    "index": (".[0]", [], "arr"), "field": (".a", [], "obj"), "iter": (".[]", [], "arr"),
+    "stream": (".", ["--stream"], "plain"), "slurp": (".[]", ["-s"], "plain"),
+    "sort": ("[., .] | sort | .[1]", [], "plain"), "min": ("[., .] | min", [], "plain"),
+    "unique": ("[., .] | unique | .[0]", [], "plain"), "select": ("select(. == .)", [], "plain"),
+    "uplus": ("+.", [], "plain"), "tonum": ("tonumber", [], "plain"), "negneg": ("-(-.)", [], "plain"),
+    "tojson": ("tojson", [], "plain"), "tostring": ("tostring", [], "plain"), "interp": ('"\\(.)"', [], "plain"),
+    "attext": ("@text", [], "plain"), "neg": ("-.", [], "plain"), "abs": ("abs", [], "plain"),
+    "length": ("length", [], "plain"), "plus0": (". + 0", [], "plain"), "mul1": (". * 1", [], "plain"),
+    "sub0": (". - 0", [], "plain"), "reparse": ("tojson | tonumber", [], "plain"),
+    "fromjson": ("tojson | fromjson", [], "plain"),
+}
+SPECIALS = {"nan": ["nan", "infinite - infinite", "[nan] | .[0]"],
+            "inf": ["infinite", "1e1000", "1e200 * 1e200", "-(-infinite)"],
+            "-inf": ["-infinite", "-1e1000", "-1e200 * 1e200"]}
+SPECIAL_MODES = ["id", "arr", "obj", "tojson", "tostring", "interp"]
+
+
+def wrap_input(text, how):
+    if how == "arr":
+        return "[" + text + "]"
+    if how == "obj":
+        return '{"a":' + text + "}"
+    return text
+
+
+def run_gojq(gojq, args, stdin_text=None, timeout=120):
+    p = subprocess.run([gojq] + args, input=stdin_text, stdout=subprocess.PIPE, stderr=subprocess.PIPE,
+                       text=True, timeout=timeout)
+    return p.returncode, p.stdout, p.stderr
+
+
+def lit_batch(work, gojq, mode, texts, use_file, tag):
+    """One process for the whole batch; returns the output line of every literal (None = none)."""
+    q, extra, how = LIT_MODES[mode]
+    data = "".join(wrap_input(t, how) + "\n" for t in texts)
+    if use_file:
+        path = work.path("lit_%s_%s.json" % (tag, mode))
+        with open(path, "w") as f:
+            f.write(data)
+        rc, out, err = run_gojq(gojq, ["-c"] + extra + [q, path])
+        os.remove(path)
+    else:
+        rc, out, err = run_gojq(gojq, ["-c"] + extra + [q], stdin_text=data)
+    lines = out.split("\n")
+    if lines and lines[-1] == "":
+        lines.pop()
+    if rc == 0 and len(lines) == len(texts):
+        return lines
+    # something failed inside the batch: one process per literal to find out which
+    res = []
+    for t in texts:
+        rc, out, err = run_gojq(gojq, ["-c"] + extra + [q], stdin_text=wrap_input(t, how) + "\n")
+        ls = out.split("\n")
+        res.append(ls[0] if rc == 0 and len(ls) == 2 and ls[1] == "" else None)
+    return res
+
+
+def lit_single(gojq, mode, text):
+    q, extra, how = LIT_MODES[mode]
+    rc, out, err = run_gojq(gojq, ["-c"] + extra + [q], stdin_text=wrap_input(text, how) + "\n")
+    ls = out.split("\n")
+    return (ls[0] if rc == 0 and len(ls) == 2 and ls[1] == "" else None), err
+
+
+def cps(s):
+    return [ord(c) for c in s]
+
+
+def check_literals(rep, work, gojq, seed, quick):
+    # model -> code: TLC enumerates the literal shapes
+    gout = work.path("lits.ndjson")
+    res = vc.tlc(work.dir, "NumLitGen.tla", "Gen.cfg", env={"VERIF_OUT": gout, "VERIF_N": "1500" if quick else "0"},
+                 timeout=600, extra=["-seed", str(seed), "-noGenerateSpecTE"])
+    if not res.ok() or not os.path.exists(gout):
+        raise vc.ToolError("NumLitGen failed:\n" + vc.tlc_error_text(res))
+    rep.add_tlc(res)
+    lits = vc.read_ndjson(gout)
+    texts = ["".join(chr(c) for c in l["lit"]) for l in lits]
+    rep.cov["literals_generated_by_tlc"] = len(texts)
+    r = random.Random(seed)
+    recs = []
+
+    def add(mode, text, out, **kw):
+        rec = {"id": len(recs), "mode": mode, "lit": cps(text)}
+        if out is not None:
+            rec["out"] = cps(out)
+        rec.update(kw)
+        recs.append(rec)
+
+    jobs = []
+    for mode in LIT_MODES:
+        jobs.append((mode, True))
+        if mode in ("id", "plus0", "tojson") or not quick:
+            jobs.append((mode, False))
+    with cf.ThreadPoolExecutor(max_workers=vc.NCPU) as ex:
+        futs = [(mode, use_file, ex.submit(lit_batch, work, gojq, mode, texts, use_file, "f" if use_file else "s"))
+                for mode, use_file in jobs]
+        for mode, use_file, fu in futs:
+            for t, o in zip(texts, fu.result()):
+                add(mode, t, o, via="file" if use_file else "stdin")
+    # argument transports: --jsonargs (chunks), --argjson (one process each; a sample)
+    for i in range(0, len(texts), 150):
+        chunk = texts[i:i + 150]
+        rc, out, err = run_gojq(gojq, ["-nc", "$ARGS.positional[]", "--jsonargs"] + chunk)
+        lines = out.split("\n")[:-1]
+        if rc != 0 or len(lines) != len(chunk):
+            lines = [None] * len(chunk)
+        for t, o in zip(chunk, lines):
+            add("jsonargs", t, o, via="argv")
+    for t in r.sample(texts, 40 if quick else 400):
+        rc, out, err = run_gojq(gojq, ["-nc", "$x", "--argjson", "x", t])
+        add("argjson", t, out[:-1] if rc == 0 and out.endswith("\n") else None, via="argv")
+    # special floats computed by the query, through both encoders
+    for name, queries in SPECIALS.items():
+        for q in queries:
+            for mode in SPECIAL_MODES:
+                full = "(%s) | %s" % (q, LIT_MODES[mode][0])
+                rc, out, err = run_gojq(gojq, ["-nc", full])
+                rec = {"id": len(recs), "mode": mode, "special": name, "query": full}
+                if rc == 0 and out.endswith("\n"):
+                    rec["out"] = cps(out[:-1])
+                recs.append(rec)
+    verdicts, stats = vc.validate_sharded(work, recs, "ValidateNum.tla", "ValidateNum.cfg", {}, tag="n",
+                                          timeout=900 if quick else 3000, per_shard_min=300)
+    rep.add_tlc(stats)
+    counters = {}
+
+    def bump(k):
+        counters[k] = counters.get(k, 0) + 1
+
+    for rec, v in zip(recs, verdicts):
+        rep.count("evaluations")
+        text = "".join(chr(c) for c in rec["lit"]) if "lit" in rec else rec["query"]
+        out = "".join(chr(c) for c in rec["out"]) if "out" in rec else None
+        if "tlc" in v:
+            bump("tlc_" + v["tlc"])
+            rep.count("out_of_model")
+            continue
+        bump(v["v"] + ":" + v["why"])
+        if v["v"] == "agree":
+            rep.count("traces_validated_against_impl")
+            rep.nontrivial(["lit", rec["mode"], text])
+            if rec["id"] % 4001 == 0:
+                rep.sample({"literal": text, "mode": rec["mode"], "printed": out, "verdict": "agree (%s)" % v["why"]}, limit=12)
+        elif v["v"] == "oom":
+            rep.count("out_of_model")
+        else:
+            # second execution (single process) before anything is reported
+            if "lit" in rec:
+                out2, err = lit_single(gojq, rec["mode"], text) if rec["mode"] in LIT_MODES else (out, "")
+            else:
+                rc, o2, err = run_gojq(gojq, ["-nc", rec["query"]])
+                out2 = o2[:-1] if rc == 0 and o2.endswith("\n") else None
+            if out2 != out:
+                if rec.get("via") in ("file", "stdin") and "lit" in rec:
+                    # batch and single transport disagree: report it as it is observable
+                    what = "literal %s through `%s`: batch run printed %r, single run printed %r" % (text, LIT_MODES[rec["mode"]][0], out, out2)
+                else:
+                    what = "non-deterministic output for %s" % text
+            else:
+                what = "%s through mode %s (%s) printed %r; the specification (%s) says otherwise" % (
+                    "literal " + text if "lit" in rec else "query " + text, rec["mode"],
+                    LIT_MODES.get(rec["mode"], ("$x",))[0], out, v["why"])
+            rep.violation(what, {"family": "literal", "case": {k: rec[k] for k in rec if k not in ("id", "out")},
+                                 "text": text, "actual": out})
+    return counters
+
+
+# ---------------------------------------------------------------------------
 
 def model_check(work, quick):
-    """IntFastMC for the word widths of the tier, in parallel JVMs."""
-    cfgs = [("IntFastMC_W4.cfg", 3), ("IntFastMC_W6.cfg", 4), ("IntFastMC_W8.cfg", 8)]
+    """Design-level runs: IntFastMC for the word widths of the tier, NumLitMC; parallel JVMs."""
+    runs = [("IntFastMC.tla", "IntFastMC_W4.cfg", 2), ("IntFastMC.tla", "IntFastMC_W6.cfg", 3),
+            ("IntFastMC.tla", "IntFastMC_W8.cfg", 6), ("NumLitMC.tla", "NumLitMC.cfg", 2)]
     if not quick:
-        cfgs = [("IntFastMC_W4t.cfg", 2), ("IntFastMC_W6t.cfg", 5), ("IntFastMC_W8.cfg", 4), ("IntFastMC_W10.cfg", 8)]
+        runs = [("IntFastMC.tla", "IntFastMC_W4t.cfg", 2), ("IntFastMC.tla", "IntFastMC_W6t.cfg", 4),
+                ("IntFastMC.tla", "IntFastMC_W8.cfg", 3), ("IntFastMC.tla", "IntFastMC_W10.cfg", 6),
+                ("NumLitMC.tla", "NumLitMC_t.cfg", 3)]
     out = {}
 
-    def one(cw):
-        cfg, workers = cw
-        return cfg, vc.tlc(work.dir, "IntFastMC.tla", cfg, workers=workers, timeout=300 if quick else 2400, xss="64m")
+    def one(x):
+        mod, cfg, workers = x
+        return cfg, vc.tlc(work.dir, mod, cfg, workers=workers, timeout=400 if quick else 3000, xss="64m",
+                           extra=["-noGenerateSpecTE"])
 
-    with cf.ThreadPoolExecutor(max_workers=len(cfgs)) as ex:
-        for cfg, res in ex.map(one, cfgs):
+    with cf.ThreadPoolExecutor(max_workers=len(runs)) as ex:
+        for cfg, res in ex.map(one, runs):
             if not res.ok() or res.distinct == 0:
-                raise vc.ToolError("model checking of IntFastMC.tla with %s failed:\n%s" % (cfg, vc.tlc_error_text(res)))
+                raise vc.ToolError("model checking with %s failed:\n%s" % (cfg, vc.tlc_error_text(res)))
             out[cfg] = {"distinct": res.distinct, "generated": res.generated, "wall_s": round(res.wall, 1)}
     return out
 
 
+def replay_literal(rep, work, gojq, rec):
+    case = rec["case"]
+    if "lit" in case:
+        out, err = lit_single(gojq, case["mode"], rec["text"])
+    else:
+        rc, o, err = run_gojq(gojq, ["-nc", case["query"]])
+        out = o[:-1] if rc == 0 and o.endswith("\n") else None
+    r = dict(case, id=0)
+    if out is not None:
+        r["out"] = cps(out)
+    verdicts, stats = vc.validate_sharded(work, [r], "ValidateNum.tla", "ValidateNum.cfg", {}, tag="replay")
+    rep.add_tlc(stats)
+    v = verdicts[0]
+    vc.log("replay:", rec["text"], "->", out, v)
+    rep.count("evaluations")
+    if v.get("v") == "agree":
+        rep.count("traces_validated_against_impl")
+    elif v.get("v") == "mismatch":
+        rep.violation("%s through mode %s printed %r; the specification (%s) says otherwise" % (rec["text"], case["mode"], out, v["why"]),
+                      {"family": "literal", "case": case, "text": rec["text"], "actual": out})
+
+
 def run(tier, seed, replay):
     rep = vc.Report(PROP, tier, seed)
-    rep.assumptions += ["TLC evaluates the specification correctly", "math/big and strconv are exact (the model uses the carrier operation for them)",
+    rep.assumptions += ["TLC evaluates the specification correctly",
+                        "math/big is exact (the model uses the carrier operation for the fallback)",
                         "Go's int is 64 bit (W = 64 in ValidateArith.tla)",
-                        "digits of computed floats come from strconv (not modelled; only format selection, saturation and a 2^-52 relative closeness bound are)"]
+                        "digits of computed floats come from strconv (not modelled; only format selection, saturation, "
+                        "<= 17 significant digits and a 2^-52 relative closeness bound are)"]
     vh, gojq = vc.build()
     work = vc.Work(PROP)
     try:
@@ -312,22 +515,28 @@ def run(tier, seed, replay):
             if rec.get("family") == "arith":
                 c = check_arith(rep, work, vh, [dict(rec["case"], id=0)], tag="replay")
                 vc.log("replay:", c)
+            elif rec.get("family") == "literal":
+                replay_literal(rep, work, gojq, rec)
             return rep.finish(min_decided=0)
         r = random.Random(seed)
         quick = tier == "quick"
-        with cf.ThreadPoolExecutor(max_workers=2) as ex:
+        with cf.ThreadPoolExecutor(max_workers=1) as ex:
             mc = ex.submit(model_check, work, quick)
             cases = arith_cases(r, quick, 1.0 if quick else 24.0)
             counters = check_arith(rep, work, vh, cases, timeout=600 if quick else 3000)
+            lit_counters = check_literals(rep, work, gojq, seed, quick)
             rep.cov["model_checking"] = mc.result()
             for m in rep.cov["model_checking"].values():
                 rep.add_tlc({"states": m["distinct"], "generated": m["generated"]})
         rep.cov["arith_verdicts"] = counters
+        rep.cov["literal_verdicts"] = lit_counters
         rep.cov["exhaustive"] = True
-        rep.cov["rule"] = ("IntFastMC: all operand pairs of the W-bit universe (W=4,6,8[,10]) x 5 operators + compare + 4 unary x 3 representations; "
-                           "conformance: seeded pairs from the boundary set of the property, structured pairs at the decision points of each fast path, "
-                           "x every exact Go representation pair, x query modes ($a op $b, .[0] op .[1], literals, add); "
-                           "non-trivial = distinct (operator, a, b)")
+        rep.cov["rule"] = ("IntFastMC: all operand pairs of the W-bit universe (W=4,6,8; thorough also 10) x 5 operators + compare + 4 unary "
+                           "x 3 representations, chained; NumLitMC: every text over 9 symbols up to length 6 (thorough 7). "
+                           "conformance: seeded pairs from the boundary set of the property and structured pairs at the decision points of each "
+                           "fast path x every exact Go representation pair x query modes ($a op $b, .[0] op .[1], literals, add); "
+                           "TLC-enumerated literal shapes (quick: seeded subset, thorough: all) x 29 journeys through build/gojq (file and stdin); "
+                           "non-trivial = distinct (operator, a, b) / (mode, literal)")
         code = rep.finish()
         if code == 0 and counters.get("specerr"):
             vc.log("SPEC-DRIFT: the model disagrees with the exact result on %d runs the real code got right" % counters["specerr"])
